@@ -11,7 +11,7 @@ class _RL(dict):
 UNIT_RLIMIT = _RL({"div_small": 80, "mul_redc": 80})      # unit -> --rlimit (Verus default is 10; 5x head-room over the measured maximum)
 UNIT_TIMEOUT = {"knuth": 1500, "addmul": 900}     # unit -> seconds
 UNIT_EXPECT = {       # unit -> minimum number of verified functions on the unchanged tree (vacuity guard)
-    "core": 31, "add": 29, "kernels": 79, "addmul": 71, "addmul_n": 73, "mul": 51, "divd": 45, "div_small": 235, "knuth": 145, "mul_redc": 69, "basics": 22, "pow": 38, "divw": 54, "modular": 51, "spigot": 44, "gcd": 21, "forward": 57,
+    "core": 31, "add": 29, "kernels": 79, "addmul": 71, "addmul_n": 73, "mul": 51, "divd": 45, "div_small": 235, "knuth": 145, "mul_redc": 69, "basics": 22, "pow": 38, "divw": 54, "modular": 51, "spigot": 44, "gcd": 21, "forward": 57, "invring": 36,
 }
 
 COMMON_TRUST = [
@@ -116,7 +116,7 @@ PROPS = {
         level_note="assumed: add_nx1's contract (Kani per length), slice-length axiom, core integer specs; NOT decided: inv_ring for BITS > 8 (Wrapping<u64> Newton block and the operator-based lifting loop are "
                    "outside the Verus units; Kani: BITS 1, 8 (16 in thorough)), Product beyond 2 elements, the Mul/MulAssign operator impls (macro-generated forwards to wrapping_mul; checked by Kani for add/sub only)",
         technique="deductive contracts (Verus, all widths) over the real multiplication code; Kani for inv_ring/Product at tiny widths",
-        units=["core", "kernels", "addmul", "addmul_n", "mul", "forward"],
+        units=["core", "basics", "kernels", "addmul", "addmul_n", "mul", "invring", "forward"],
         kani=dict(
             features=None,
             quick=["c02::c02_inv_ring_cond_w0", "c02::c02_inv_ring_w1", "c02::c02_inv_ring_w8", "c02::c02_product_w8", "c02::c02_mulc_zero_w128", "c02::c02_mulc_zero_w65", "c02::c02_mulc_zero_w192"],
